@@ -308,4 +308,4 @@ def replay(path, seed):
         why = oracle_scenario(inp, res)
         print("oracle:", why or "accepts")
         return 1 if why else 0
-    return 0
+    return 2   # not a kind of record this function knows how to replay (the driver then re-runs the check)
